@@ -100,9 +100,20 @@ def combine_simulation_results(
         result_list1 = simresults1[name]
         result_list2 = simresults2[name]
         type_code = result_list1[0].type_code
+        # A result of the CHOICETYPE type needs the number of choices, and
+        # the values are accumulated if they were accumulated in both objects
+        choice_num = None
+        if type_code == Result.CHOICETYPE:
+            # noinspection PyProtectedMember
+            choice_num = len(result_list1[0]._value)
+        accumulate_values = (result_list1[0].accumulate_values_bool is True
+                             and result_list2[0].accumulate_values_bool is True)
         for unpack in combined_params.get_unpacked_params_list():
             # Create an empty Result object.
-            result_object = Result(name, type_code)
+            result_object = Result(name,
+                                   type_code,
+                                   accumulate_values=accumulate_values,
+                                   choice_num=choice_num)
 
             # Dictionary with the current unpack variation
             fixed_parameters = unpack.parameters
